@@ -29,52 +29,355 @@ def RecordWise' (c : Column) : Constraint → Prop
 end TddaVerif.Props.C06
 
 namespace TddaVerif.Props.C06.Lemmas
-open TddaVerif.Constraints TddaVerif.Props.C02 TddaVerif.Props.C06
+open TddaVerif.Constraints TddaVerif.Props.C02 TddaVerif.Props.C06 TddaVerif.Constraints.Order
+open TddaVerif.Props.C02.Lemmas
 
 theorem detect_verdicts_eq_verify (cfg : Cfg) (heps : 0 ≤ cfg.epsilon) (c : Column) (hwf : c.WF = true)
-    (k : Constraint) : verifyOn cfg c true k = verifyOn cfg c false k := by
-  sorry
+    (k : Constraint) : verifyOn cfg c true k = verifyOn cfg c false k :=
+  verify_flag_irrelevant cfg heps c hwf k
+
+/-! ### detection_field -/
+
+theorem detField_length (cells : List (Option Val)) (d : Option Bool) (p : Val → Bool) :
+    (detField cells d p).length = cells.length := by
+  unfold detField; split <;> simp
+
+theorem constFlags_length (c : Column) (b : Bool) : (constFlags c b).length = c.cells.length := by
+  simp [constFlags]
+
+theorem detField_getElem?_some (cells : List (Option Val)) (d : Option Bool) (p : Val → Bool)
+    (i : Nat) (v : Val) (h : cells[i]? = some (some v)) :
+    (detField cells d p)[i]? = some (some (p v)) := by
+  unfold detField; split <;> simp [List.getElem?_map, h]
+
+/-- a null record gets the default; when the default is `none` this is `none` in both branches -/
+theorem detField_getElem?_none (cells : List (Option Val)) (d : Option Bool) (p : Val → Bool)
+    (i : Nat) (h : cells[i]? = some none) :
+    (detField cells d p)[i]? = some d := by
+  unfold detField; split
+  · rename_i hall
+    have := List.all_eq_true.mp hall none (List.mem_of_getElem? h)
+    simp at this
+  · simp [List.getElem?_map, h]
 
 theorem flags_length (cfg : Cfg) (c : Column) (k : Constraint) (fl : List (Option Bool))
     (h : detectFlags cfg c k = some fl) : fl.length = c.cells.length := by
-  sorry
+  have hc := constFlags_length c
+  have hd := detField_length c.cells
+  cases k with
+  | type ts => simp only [detectFlags, Option.some.injEq] at h; subst h; exact hc _
+  | min b p =>
+    cases b with
+    | none => simp [detectFlags] at h
+    | some b =>
+      simp only [detectFlags] at h
+      repeat' split at h
+      all_goals (simp only [Option.some.injEq] at h; subst h; first | exact hc _ | exact hd _ _)
+  | max b p =>
+    cases b with
+    | none => simp [detectFlags] at h
+    | some b =>
+      simp only [detectFlags] at h
+      repeat' split at h
+      all_goals (simp only [Option.some.injEq] at h; subst h; first | exact hc _ | exact hd _ _)
+  | minLength n =>
+    cases n with
+    | none => simp [detectFlags] at h
+    | some n =>
+      simp only [detectFlags] at h
+      split at h
+      all_goals (simp only [Option.some.injEq] at h; subst h; first | exact hc _ | exact hd _ _)
+  | maxLength n =>
+    cases n with
+    | none => simp [detectFlags] at h
+    | some n =>
+      simp only [detectFlags] at h
+      split at h
+      all_goals (simp only [Option.some.injEq] at h; subst h; first | exact hc _ | exact hd _ _)
+  | sign s =>
+    cases s with
+    | none => simp [detectFlags] at h
+    | some s =>
+      simp only [detectFlags] at h
+      split at h
+      · simp only [Option.some.injEq] at h; subst h; exact hc _
+      · cases s <;> (simp only [Option.some.injEq] at h; subst h; first | exact hc _ | exact hd _ _)
+  | maxNulls n =>
+    cases n with
+    | none => simp [detectFlags] at h
+    | some n => simp only [detectFlags, Option.some.injEq] at h; subst h; simp
+  | noDuplicates v =>
+    cases v with
+    | none => simp [detectFlags] at h
+    | some v =>
+      cases v with
+      | false => simp [detectFlags] at h
+      | true => simp only [detectFlags, Option.some.injEq] at h; subst h; exact hd _ _
+  | allowedValues vs =>
+    cases vs with
+    | none => simp [detectFlags] at h
+    | some vs => simp only [detectFlags, Option.some.injEq] at h; subst h; exact hd _ _
+  | rex rs =>
+    cases rs with
+    | none => simp [detectFlags] at h
+    | some rs =>
+      simp only [detectFlags] at h
+      split at h
+      all_goals (simp only [Option.some.injEq] at h; subst h; first | exact hc _ | exact hd _ _)
+
+
+/-! ### record-wise kinds -/
+
+theorem single_nonNull (c : Column) (v : Val) : (single' c v).nonNull = [v] := rfl
+theorem single_ftype (c : Column) (v : Val) : (single' c v).ftype = c.ftype := rfl
+
+theorem flags_of_detField (cfg : Cfg) (c : Column) (k : Constraint) (p : Val → Bool)
+    (hp : ∀ v ∈ c.nonNull, p v = true ↔ Sat cfg (single' c v) k) (i : Nat) :
+    (c.cells[i]? = some none → (detField c.cells none p)[i]? = some none) ∧
+    (∀ v, c.cells[i]? = some (some v) →
+      ∃ b, (detField c.cells none p)[i]? = some (some b) ∧ (b = true ↔ Sat cfg (single' c v) k)) := by
+  refine ⟨fun h => detField_getElem?_none _ _ _ _ h,
+    fun v hv => ⟨p v, detField_getElem?_some _ _ _ _ _ hv, hp v ?_⟩⟩
+  rw [mem_nonNull]; exact List.mem_of_getElem? hv
+
+theorem date_iff_of_coarse (ft : FType) (b : Val) (hk : ftCoarse' ft = some b.coarse) :
+    (ft == FType.date) = (b.coarse == Coarse.date) := by
+  cases ft <;> simp [ftCoarse'] at hk <;> rw [← hk] <;> decide
+
+theorem coarse_of_wf (c : Column) (hwf : c.WF = true) (b : Val)
+    (hk : ftCoarse' c.ftype = some b.coarse) (v : Val) (hv : v ∈ c.nonNull) : v.coarse = b.coarse := by
+  have hvt := wf_ftype c hwf v hv
+  rw [← hvt] at hk
+  cases v <;> exact Option.some.inj hk
+
+theorem min_unfold (cfg : Cfg) (c : Column) (b : Val) (p : Precision) :
+    detectFlags cfg c (.min (some b) p) =
+      if ftCoarse' c.ftype != some b.coarse then some (constFlags c false)
+      else if p == .closed || c.ftype == .date then some (detField c.cells none (fun x => b.le x))
+      else if p == .open_ then some (detField c.cells none (fun x => b.lt x))
+      else some (detField c.cells none (fun x => fuzzyGe x b cfg.epsilon)) := rfl
+
+theorem max_unfold (cfg : Cfg) (c : Column) (b : Val) (p : Precision) :
+    detectFlags cfg c (.max (some b) p) =
+      if ftCoarse' c.ftype != some b.coarse then some (constFlags c false)
+      else if p == .closed || c.ftype == .date then some (detField c.cells none (fun x => x.le b))
+      else if p == .open_ then some (detField c.cells none (fun x => x.lt b))
+      else some (detField c.cells none (fun x => fuzzyLe x b cfg.epsilon)) := rfl
+
+theorem min_flags_eq (cfg : Cfg) (c : Column) (b : Val) (p : Precision)
+    (hk : ftCoarse' c.ftype = some b.coarse) :
+    detectFlags cfg c (.min (some b) p) = some (detField c.cells none (fun x =>
+      if p == .closed || b.coarse == .date then b.le x
+      else if p == .open_ then b.lt x else fuzzyGe x b cfg.epsilon)) := by
+  simp only [min_unfold, hk, bne_self_eq_false, Bool.false_eq_true, if_false,
+    date_iff_of_coarse _ _ hk]
+  split
+  · rfl
+  · split <;> rfl
+
+theorem max_flags_eq (cfg : Cfg) (c : Column) (b : Val) (p : Precision)
+    (hk : ftCoarse' c.ftype = some b.coarse) :
+    detectFlags cfg c (.max (some b) p) = some (detField c.cells none (fun x =>
+      if p == .closed || b.coarse == .date then x.le b
+      else if p == .open_ then x.lt b else fuzzyLe x b cfg.epsilon)) := by
+  simp only [max_unfold, hk, bne_self_eq_false, Bool.false_eq_true, if_false,
+    date_iff_of_coarse _ _ hk]
+  split
+  · rfl
+  · split <;> rfl
 
 theorem flag_false_iff_violates (cfg : Cfg) (heps : 0 ≤ cfg.epsilon) (c : Column) (hwf : c.WF = true)
     (k : Constraint) (hk : RecordWise' c k) (fl : List (Option Bool))
     (h : detectFlags cfg c k = some fl) (i : Nat) (hi : i < c.cells.length) :
     (c.cells[i]? = some none → fl[i]? = some none) ∧
     (∀ v, c.cells[i]? = some (some v) → ∃ b, fl[i]? = some (some b) ∧ (b = true ↔ Sat cfg (single' c v) k)) := by
-  sorry
+  have _ := heps
+  have _ := hi
+  cases k with
+  | type ts => exact hk.elim
+  | maxNulls n => exact hk.elim
+  | noDuplicates n => exact hk.elim
+  | min b p =>
+    cases b with
+    | none => exact hk.elim
+    | some b =>
+      have hk' : ftCoarse' c.ftype = some b.coarse := hk
+      rw [min_flags_eq cfg c b p hk', Option.some.injEq] at h
+      subst h
+      apply flags_of_detField
+      intro v hv
+      have hc := coarse_of_wf c hwf b hk' v hv
+      simp only [Sat, single_nonNull, List.mem_singleton, forall_eq]
+      rw [← minOk_iff_admits]
+      simp [minOk, hc]
+  | max b p =>
+    cases b with
+    | none => exact hk.elim
+    | some b =>
+      have hk' : ftCoarse' c.ftype = some b.coarse := hk
+      rw [max_flags_eq cfg c b p hk', Option.some.injEq] at h
+      subst h
+      apply flags_of_detField
+      intro v hv
+      have hc := coarse_of_wf c hwf b hk' v hv
+      simp only [Sat, single_nonNull, List.mem_singleton, forall_eq]
+      rw [← maxOk_iff_admits]
+      simp [maxOk, hc]
+  | minLength n =>
+    cases n with
+    | none => exact hk.elim
+    | some n =>
+      have hk' : c.ftype = .string := hk
+      simp only [detectFlags, hk', bne_self_eq_false, Bool.false_eq_true, if_false,
+        Option.some.injEq] at h
+      subst h
+      apply flags_of_detField
+      intro v hv
+      have hvt := wf_ftype c hwf v hv
+      simp only [Sat, single_nonNull, single_ftype, hk', List.mem_singleton, forall_eq, true_and]
+      cases v <;> simp [Val.ftype, hk'] at hvt ⊢
+  | maxLength n =>
+    cases n with
+    | none => exact hk.elim
+    | some n =>
+      have hk' : c.ftype = .string := hk
+      simp only [detectFlags, hk', bne_self_eq_false, Bool.false_eq_true, if_false,
+        Option.some.injEq] at h
+      subst h
+      apply flags_of_detField
+      intro v hv
+      have hvt := wf_ftype c hwf v hv
+      simp only [Sat, single_nonNull, single_ftype, hk', List.mem_singleton, forall_eq, true_and]
+      cases v <;> simp [Val.ftype, hk'] at hvt ⊢
+  | sign s =>
+    cases s with
+    | none => exact hk.elim
+    | some s =>
+      obtain ⟨hnum, hs⟩ : (c.ftype = .bool ∨ c.ftype = .int ∨ c.ftype = .real) ∧ s ≠ .null := hk
+      have hg : (!(c.ftype == .bool || c.ftype == .int || c.ftype == .real)) = false := by
+        rcases hnum with h1 | h1 | h1 <;> simp [h1]
+      simp only [detectFlags, hg, Bool.false_eq_true, if_false] at h
+      cases s with
+      | null => exact absurd rfl hs
+      | positive | nonNegative | zero | nonPositive | negative =>
+        simp only [Option.some.injEq] at h
+        subst h
+        apply flags_of_detField
+        intro v hv
+        simp only [Sat, single_nonNull, List.mem_singleton, forall_eq]
+        cases hn : v.num <;> simp [SignHolds]
+  | allowedValues vs =>
+    cases vs with
+    | none => exact hk.elim
+    | some vs =>
+      simp only [detectFlags, Option.some.injEq] at h
+      subst h
+      apply flags_of_detField
+      intro v hv
+      simp [Sat, single_nonNull]
+  | rex rs =>
+    cases rs with
+    | none => exact hk.elim
+    | some rs =>
+      have hk' : c.ftype = .string := hk
+      simp only [detectFlags, hk', bne_self_eq_false, Bool.false_eq_true, if_false,
+        Option.some.injEq] at h
+      subst h
+      apply flags_of_detField
+      intro v hv
+      have hvt := wf_ftype c hwf v hv
+      simp only [Sat, single_nonNull, single_ftype, hk', List.mem_singleton, forall_eq, true_and]
+      cases v <;> simp [Val.ftype, hk'] at hvt ⊢
+
+/-! ### the non-record-wise kinds -/
 
 theorem type_failure_flags_all (cfg : Cfg) (c : Column) (ts : Option (List FType)) :
-    detectFlags cfg c (.type ts) = some (c.cells.map (fun _ => some false)) := by
-  sorry
+    detectFlags cfg c (.type ts) = some (c.cells.map (fun _ => some false)) := rfl
 
 theorem wrong_typed_bound_flags_all (cfg : Cfg) (c : Column) (b : Val) (p : Precision)
     (h : ftCoarse' c.ftype ≠ some b.coarse) :
     detectFlags cfg c (.min (some b) p) = some (c.cells.map (fun _ => some false)) ∧
     detectFlags cfg c (.max (some b) p) = some (c.cells.map (fun _ => some false)) := by
-  sorry
+  have hne : (ftCoarse' c.ftype != some b.coarse) = true := by simpa using h
+  constructor
+  · rw [min_unfold, if_pos hne]; rfl
+  · rw [max_unfold, if_pos hne]; rfl
 
 theorem maxNulls_flags_nulls (cfg : Cfg) (c : Column) (n : Int) :
-    detectFlags cfg c (.maxNulls (some n)) = some (c.cells.map (fun x => some x.isSome)) := by
-  sorry
+    detectFlags cfg c (.maxNulls (some n)) = some (c.cells.map (fun x => some x.isSome)) := rfl
 
 theorem noDuplicates_flags (cfg : Cfg) (c : Column) (fl : List (Option Bool))
     (h : detectFlags cfg c (.noDuplicates (some true)) = some fl) (i : Nat) (hi : i < c.cells.length) :
     (c.cells[i]? = some none → fl[i]? = some (some true)) ∧
     (∀ v, c.cells[i]? = some (some v) →
         fl[i]? = some (some (decide ((c.nonNull.filter (fun w => w.eqv v)).length ≤ 1)))) := by
-  sorry
+  have _ := hi
+  simp only [detectFlags, Option.some.injEq] at h
+  subst h
+  refine ⟨fun h0 => detField_getElem?_none _ _ _ _ h0, fun v hv => ?_⟩
+  rw [detField_getElem?_some _ _ _ _ _ hv]
+  congr 2
+  rw [Bool.eq_iff_iff]
+  simp [isDuplicated]
+
+/-! ### failure counts -/
+
+theorem row_split (row : List (Option Bool)) :
+    row.length = (row.filter (· == some true)).length + (row.filter (· == none)).length
+      + (row.filter (· == some false)).length := by
+  induction row with
+  | nil => rfl
+  | cons x xs ih =>
+    rcases x with _ | _ | _ <;> simp at ih ⊢ <;> omega
+
+theorem row_count (cols : List (List (Option Bool))) (i : Nat) :
+    (let row := cols.map (fun col => col.getD i none)
+     row.length - (row.filter (· == some true)).length - (row.filter (· == none)).length)
+      = (cols.filter (fun col => col.getD i none == some false)).length := by
+  have h := row_split (cols.map (fun col => col.getD i none))
+  have h2 : ((cols.map (fun col => col.getD i none)).filter (· == some false)).length
+      = (cols.filter (fun col => col.getD i none == some false)).length := by
+    rw [List.filter_map, List.length_map]; rfl
+  simp only
+  omega
+
+theorem nFailures_eq (cols : List (List (Option Bool))) (n : Nat) :
+    nFailures cols n = (List.range n).map (fun i =>
+      (cols.filter (fun col => col.getD i none == some false)).length) := by
+  unfold nFailures
+  apply List.map_congr_left
+  intro i _
+  exact row_count cols i
 
 theorem nFailures_exact (cols : List (List (Option Bool))) (n : Nat) (i : Nat) (hi : i < n) :
     (nFailures cols n)[i]? = some ((cols.filter (fun col => col.getD i none == some false)).length) := by
-  sorry
+  rw [nFailures_eq, List.getElem?_map, List.getElem?_range hi]
+  rfl
+
+theorem filter_length_pos {α : Type} (l : List α) (p : α → Bool) :
+    decide ((l.filter p).length > 0) = l.any p := by
+  induction l with
+  | nil => rfl
+  | cons x xs ih =>
+    cases hp : p x <;> simp [hp] at ih ⊢
+    exact ih
 
 theorem counts_partition (cols : List (List (Option Bool))) (n : Nat) :
     nPassing (nFailures cols n) + nFailing (nFailures cols n) = n ∧
     nFailing (nFailures cols n) =
       ((List.range n).filter (fun i => cols.any (fun col => col.getD i none == some false))).length := by
-  sorry
+  constructor
+  · have hlen : (nFailures cols n).length = n := by simp [nFailures]
+    have hle : nFailing (nFailures cols n) ≤ (nFailures cols n).length := by
+      unfold nFailing; exact List.length_filter_le _ _
+    unfold nPassing
+    omega
+  · rw [nFailures_eq]
+    unfold nFailing
+    rw [List.filter_map, List.length_map]
+    congr 1
+    apply List.filter_congr
+    intro i _
+    exact filter_length_pos cols _
 
 end TddaVerif.Props.C06.Lemmas
